@@ -6,6 +6,6 @@ cd "$(dirname "$0")/.."
 seed=${1:-7}
 echo "== benign (specificity)"; /venv/bin/python selftest/run_mutants.py --benign 2>&1 | grep --line-buffered -E "^(SILENT|FALSE-ALARM|ERROR|    )" 
 echo "== determinism"; /venv/bin/python selftest/determinism.py --runs 340 2>&1 | grep -vE "WARNING" | tail -60
-echo "== sensitivity"; /venv/bin/python selftest/run_mutants.py --seeded --skip-suite 2>&1 | grep --line-buffered -E "^(DETECTED|MISSED|ERROR)"
 echo "== thorough tiers (seed $seed)"; bash selftest/thorough_all.sh $seed
+echo "== sensitivity"; /venv/bin/python selftest/run_mutants.py --seeded --skip-suite 2>&1 | grep --line-buffered -E "^(DETECTED|MISSED|ERROR)"
 echo VALIDATE-ALL DONE
